@@ -109,6 +109,8 @@ func (s *StoreManager) Deliver(
 	}
 
 	// Deliver to each mailbox.
+	type stored struct{ mailbox, id string }
+	var done []stored
 	for _, mb := range inbound.Mailboxes {
 		// Append recipient and timestamp to generated Received header.
 		recvd := fmt.Sprintf("%s  for <%s>; %s\r\n", recvdHeader, mb, tstamp)
@@ -129,8 +131,16 @@ func (s *StoreManager) Deliver(
 		id, err := s.Store.AddMessage(delivery)
 		if err != nil {
 			logger.Error().Str("mailbox", mb).Err(err).Msg("Delivery failed")
+			// The transaction is refused as a whole: take back the copies already stored.
+			for _, d := range done {
+				if rerr := s.Store.RemoveMessage(d.mailbox, d.id); rerr != nil {
+					logger.Error().Str("mailbox", d.mailbox).Str("id", d.id).Err(rerr).
+						Msg("Unable to remove message of failed delivery")
+				}
+			}
 			return err
 		}
+		done = append(done, stored{mb, id})
 
 		// Emit message stored event.
 		event := delivery.Meta
